@@ -34,6 +34,21 @@ GROUPS += [
     G("der.oid_canon.search", "harness/C08/der.c", "h_der_oid", DER, defs=["CMAX=12"], level="N", backend="native", search=1500000,
       fn=["derOIDDec", "derOIDDec2", "derOIDEnc"], note="native search stand-in for the OID re-encoding obligations; NOT proof"),
 ]
+APDU = ["src/core/apdu.c", "src/core/mem.c", "src/core/util.c", "src/core/word.c", "src/core/u16.c", "src/core/u32.c", "src/core/u64.c"]
+GROUPS += [
+    G("apdu.cmd_dec.c12", "harness/C08/apdu.c", "h_apdu_cmd_dec", APDU, defs=["CMAX=12"], level="B", bound="input length 0..12 octets (symbolic)",
+      unwind=24, spec_unwind=24, search=400000, split=True, timeout=900, fn=["apduCmdDec", "apduCmdEnc", "apduCmdIsValid"]),
+    G("apdu.resp_dec.c8", "harness/C08/apdu.c", "h_apdu_resp_dec", APDU, defs=["CMAX=8"], level="B", bound="input length 0..8 octets (symbolic)",
+      unwind=20, spec_unwind=20, search=200000, split=True, timeout=900, fn=["apduRespDec", "apduRespEnc", "apduRespIsValid"]),
+]
+for cdf in (0, 1, 255, 256):
+    GROUPS.append(G("apdu.cmd_enc.cdf%d" % cdf, "harness/C08/apdu.c", "h_apdu_cmd_enc", APDU, defs=["CDF=%d" % cdf], level="B",
+                    bound="cdf_len = %d (short/extended Lc boundary), every rdf_len 0..65536, all header and data octets" % cdf,
+                    unwind=cdf + 12, spec_unwind=cdf + 12, search=300000, split=True, timeout=900, tier="quick" if cdf < 255 else "thorough",
+                    fn=["apduCmdEnc", "apduCmdDec"]))
+    if cdf >= 255:
+        GROUPS.append(G("apdu.cmd_enc.cdf%d.search" % cdf, "harness/C08/apdu.c", "h_apdu_cmd_enc", APDU, defs=["CDF=%d" % cdf], level="N",
+                        backend="native", search=300000, fn=["apduCmdEnc", "apduCmdDec"], note="native stand-in for the long-Lc forms; NOT proof"))
 TRUSTED = ["CBMC's models of memmove/memcpy/strchr/strlen"]
 ASSUMPTIONS = ["output buffers are sized by the decoder's own length probe (len = dec(NULL,...), then dec(buf of exactly len,...)), as der.h prescribes"]
 NOT_COVERED = ["inputs longer than the stated CMAX", "bpki / CVC / bign parameter containers (modular composition not built yet)"]
